@@ -542,8 +542,8 @@ func discharge(ex *Exec, o *Obligation, pool, pool2 *SolverPool, timeout int, du
 }
 
 func preferFalse(name string) bool {
-	if strings.HasPrefix(name, "world.lock.busy!") && name != "world.lock.busy!1" {
-		return true
+	if strings.HasPrefix(name, "world.lock.busy!") {
+		return true // if the violation needs a busy lock the re-query is unsat and the first model stands
 	}
 	return name == "world.evidence.bad" || strings.HasPrefix(name, "world.lock.missing!")
 }
